@@ -51,6 +51,9 @@ GRV_CMD(gdl) {
             const size_t pad = size_t(v->get("featpad", 0));
             const bool sparse = pad && (g_cases & 1);
             fv = sparse ? gr_featureval_clone(0) : gr_face_featureval_for_lang(face, 0);
+            // (sparse: one of the features in front is given a value first, so that the object is bound to the face while
+            //  being only one chunk long)
+            if (sparse && fv) { const gr_feature_ref *f0 = gr_face_fref(face, 0); if (f0) gr_fref_set_feature_value(f0, 1, fv); }
             size_t fi = pad;
             for (auto &x : (*v)["feats"].a) { const gr_feature_ref *fr = gr_face_fref(face, gr_uint16(fi++)); if (fr && fv && !(sparse && x->num() == 0)) gr_fref_set_feature_value(fr, gr_uint16(x->num()), fv); }
         }
